@@ -43,7 +43,8 @@ EXPLANATION = (
     "(R5) CMake plumbing of directory/library name; directory name must depend on the schema on every path. (R6) the "
     "repetition a list is built from is white-space separated for names of any length. "
     "Not decided: collisions of names after case folding, the contents of the generated files, "
-    "CMake's own behaviour, and that the per-object state marks (search_id) let every object be printed exactly once.")
+    "CMake's own behaviour, and that the per-object state marks (search_id) let every object be printed exactly once."
+    " (R7) the generator puts a schema on a membership-tested local done-list only on paths that, since the schema variable was assigned, called a function receiving both the schema and the FILES parameter: recorded means printed (must-pass-through on the CFG).")
 
 GEN_ENTRY = "print_file"
 SCAN_ENTRY = "printSchemaFilenames"
